@@ -425,6 +425,7 @@ class Env:
         self.hooks: list[Callable[["Env", ast.Call], Any]] = []  # call models, tried in order
         self.sub_hooks: list[Callable[["Env", ast.Subscript], Any]] = []  # subscript models
         self.count_assumption: Optional[Callable[[Lin], None]] = None  # called when a loop count is assumed >= 0
+        self.comp_hooks: list[Callable[["Env", ast.AST], Any]] = []  # comprehension models
 
     def copy(self) -> "Env":
         e = Env(self.facts.copy(), self.int_attrs)
@@ -432,6 +433,7 @@ class Env:
         e.hooks = list(self.hooks)
         e.sub_hooks = list(self.sub_hooks)
         e.count_assumption = self.count_assumption
+        e.comp_hooks = list(self.comp_hooks)
         return e
 
     def symbol(self, path: str, integer: bool = True) -> Lin:
@@ -610,6 +612,11 @@ def evaluate(env: Env, e: ast.AST) -> Any:
         return Opaque("subscript")
     if isinstance(e, (ast.Compare, ast.BoolOp)):
         return truth(env, e)
+    if isinstance(e, (ast.ListComp, ast.GeneratorExp)):
+        for h in env.comp_hooks:
+            r = h(env, e)
+            if r is not None:
+                return r
     if isinstance(e, (ast.ListComp, ast.GeneratorExp)) and len(e.generators) == 1 and not e.generators[0].ifs \
             and not e.generators[0].is_async:
         # [elt for x in range(n)] / [elt for x in <sequence>]: a sequence of the same length
@@ -761,6 +768,9 @@ def assume(env: Env, test: ast.AST, polarity: bool) -> None:
     f = env.facts
     if isinstance(test, ast.UnaryOp) and isinstance(test.op, ast.Not):
         return assume(env, test.operand, not polarity)
+    if isinstance(test, ast.Name) and hasattr(env.vars.get(test.id), "with_truth"):
+        env.vars[test.id] = env.vars[test.id].with_truth(polarity)   # e.g. a filtered list known (non-)empty on this path
+        return
     if isinstance(test, ast.BoolOp):
         if isinstance(test.op, ast.And) and polarity:
             for v in test.values:
